@@ -83,6 +83,10 @@ func goType(t TypeInfo) (reflect.Type, error) {
 		if err != nil {
 			return nil, err
 		}
+		if !keyType.Comparable() {
+			// reflect.MapOf panics for such keys (blob, collections, tuples, UDTs)
+			return nil, fmt.Errorf("cannot create Go type for CQL type %s: key type %s is not comparable", t, keyType)
+		}
 		return reflect.MapOf(keyType, valueType), nil
 	case TypeVarint:
 		return reflect.TypeOf(*new(*big.Int)), nil
@@ -378,8 +382,10 @@ func (iter *Iter) SliceMap() ([]map[string]interface{}, error) {
 		return nil, iter.err
 	}
 
-	// Not checking for the error because we just did
-	rowData, _ := iter.RowData()
+	rowData, err := iter.RowData()
+	if err != nil {
+		return nil, err
+	}
 	dataToReturn := make([]map[string]interface{}, 0)
 	for iter.Scan(rowData.Values...) {
 		m := make(map[string]interface{}, len(rowData.Columns))
@@ -435,8 +441,11 @@ func (iter *Iter) MapScan(m map[string]interface{}) bool {
 		return false
 	}
 
-	// Not checking for the error because we just did
-	rowData, _ := iter.RowData()
+	rowData, err := iter.RowData()
+	if err != nil {
+		iter.err = err
+		return false
+	}
 
 	for i, col := range rowData.Columns {
 		if dest, ok := m[col]; ok {
